@@ -362,3 +362,57 @@ def lxml_document_level_nodes(nb: int, pb: int, na: int, nattr: int, nns: int) -
         return False
     k = len(want)
     return L(T['before_all'].evaluate(XPathContext(root))) == [i < j for i in range(k) for j in range(k)]
+
+
+# --- added after round-3 seeded changes: an lxml root ELEMENT (not the ElementTree) that has document-level siblings; except/intersect ----
+
+@ob(budget=200, bound='lxml root Element with 0..1 comment before, 0..1 comment after and 0..1 PI after it (counts chosen by the solver), '
+                      'fragment in {None, True, False}: a document node exists iff fragment is False or (None and the element has a '
+                      'document-level sibling on either side); its children are all the siblings in document order; never with fragment=True',
+    funcs=[TB + ':build_lxml_node_tree', TB + ':get_node_tree'])
+def lxml_element_root_with_siblings(nb: int, na: int, pa: int, fi: int) -> bool:
+    """
+    pre: 0 <= nb <= 1 and 0 <= na <= 1 and 0 <= pa <= 1 and 0 <= fi <= 2
+    post: _
+    """
+    if LX is None:
+        return True
+    nb, na, pa, fi = _pick(nb, 1), _pick(na, 1), _pick(pa, 1), _pick(fi, 2)
+    elem = LX.fromstring('<!--b-->' * nb + '<r>h<x/></r>' + '<!--a-->' * na + '<?s z?>' * pa)
+    root = get_node_tree(elem, fragment=FRAGMENTS[fi])
+    want_doc = FRAGMENTS[fi] is False or (FRAGMENTS[fi] is None and nb + na + pa > 0)
+    if not want_doc:
+        return isinstance(root, ElementNode) and root.elem is elem and root.parent is None
+    if not isinstance(root, DocumentNode):
+        return False
+    kinds = [type(c).__name__ for c in root.children]
+    if kinds != ['CommentNode'] * nb + ['EtreeElementNode'] + ['CommentNode'] * na + ['ProcessingInstructionNode'] * pa:
+        return False
+    pos = [root.position] + [c.position for c in root.children]
+    if any(a >= b for a, b in zip(pos, pos[1:])):
+        return False
+    sel = L(T['all_nodes'].evaluate(XPathContext(root)))
+    return len(sel) == 1 + nb + na + pa + 3 and L(P31.parse('/* << /node()[last()]').evaluate(XPathContext(root))) == [na + pa > 0]
+
+
+T.update(parse_all({'except_empty': '(//b, //a, //b) except ()', 'except_dup': 'count((//a, //a) except ())', 'intersect_unsorted': '(//b, //a) intersect (//a, //b, //a)',
+                    'except_self': '(//b, //a) except //b', 'union_empty': '(//b, //a) union ()'}))
+
+
+@ob(budget=300, bound='4-element tree r(x(y), z): tags over {a,b,c}: union/intersect/except whose operands are out of document order, contain '
+                      'duplicates or are empty return sorted, duplicate-free node lists',
+    funcs=['elementpath/xpath2/_xpath2_operators.py:select__intersect_and_except_operators', 'elementpath/xpath2/_xpath2_operators.py:union'])
+def set_operators_unsorted_operands(t0: str, t1: str, t2: str, t3: str) -> bool:
+    """
+    pre: all(len(t) == 1 and 'a' <= t <= 'c' for t in (t0, t1, t2, t3))
+    post: _
+    """
+    tags = [t0, t1, t2, t3]
+    els = _tree(tags, False, False)
+    doc = ET.ElementTree(els[0])
+    ev = lambda k: _idx(L(T[k].evaluate(XPathContext(doc))), els)   # noqa: E731
+    A = [i for i in range(4) if tags[i] == 'a']
+    B = [i for i in range(4) if tags[i] == 'b']
+    AB = sorted(A + B)
+    return ev('except_empty') == AB and L(T['except_dup'].evaluate(XPathContext(doc))) == [len(A)] and ev('intersect_unsorted') == AB \
+        and ev('except_self') == A and ev('union_empty') == AB
